@@ -42,3 +42,34 @@ Qed.
 
 Lemma ex_reachable_tip : reachable ex_g ex_gp ex_tag tip_rule ex_r4.
 Proof. apply ex_reachable; unfold tip_rule; vm_compute; intros; try reflexivity; discriminate. Qed.
+
+(* ---- a chain deeper than the 100-block recent window, with a tx at height 2 whose id shares its 8-byte filter key
+   with an id that is nowhere included ---- *)
+From Verif Require Import Chain.Replay.
+Definition deep_x1 : N := 5 * 2 ^ 192 + 1.
+Definition deep_x2 : N := 5 * 2 ^ 192 + 2.
+Definition deep_tx := mkTx deep_x1 7 1 10 None 50.
+Fixpoint deep_ops (n : nat) (h : N) : list (blk * bool) :=
+  match n with
+  | O => []
+  | S n' => (mkB (bid h 1) (if h =? 1 then ex_g else bid (h - 1) 1) (10 * h)
+                 (if h =? 2 then [deep_tx] else []) (if h =? 2 then [ex_rc false] else []), true) :: deep_ops n' (h + 1)
+  end.
+(* every block of the deep chain passes `validate`, and its txs are exactly deep_tx *)
+Definition deep_admb (r : repo) (b : blk) (_ : bool) : bool :=
+  match validate r b with V_ok => true | _ => false end && forallb (fun t => txrec_eqb t deep_tx) (b_txs b).
+Definition deep_repo : repo :=
+  match replay deep_admb ex_r0 (deep_ops 105 1) with Some r => r | None => ex_r0 end.
+
+Lemma deep_reachable (adm : repo -> blk -> bool -> Prop) : (forall r b best, deep_admb r b best = true -> adm r b best) ->
+  reachable ex_g ex_gp ex_tag adm deep_repo.
+Proof. intros Hadm. apply (replay_reachable_default ex_g ex_gp ex_tag adm deep_admb Hadm). apply reach_init. Qed.
+
+(* reachability of the intermediate state ex_r3 under the node's fork-choice rule *)
+Lemma ex_reachable3_tip : reachable ex_g ex_gp ex_tag tip_rule ex_r3.
+Proof.
+  apply (reach_add _ _ _ _ ex_r2 ex_b2' 1 false); [| vm_compute; repeat split | unfold tip_rule; vm_compute; discriminate | vm_compute; reflexivity].
+  apply (reach_add _ _ _ _ ex_r1 ex_b2 0 true); [| vm_compute; repeat split | unfold tip_rule; reflexivity | vm_compute; reflexivity].
+  apply (reach_add _ _ _ _ ex_r0 ex_b1 0 true); [| vm_compute; repeat split | unfold tip_rule; reflexivity | vm_compute; reflexivity].
+  apply reach_init.
+Qed.
